@@ -33,7 +33,9 @@ namespace
     std::int64_t us(DateTime t) { return t.time_since_epoch().count(); }
     DateTime     dt(std::int64_t v) { return DateTime{TimeDelta{v}}; }
 
-    struct InSpec { std::size_t src; bool active; bool required; };
+    // active / marked: the node's own declaration (schema.active_inputs) and the wiring-time passive marker
+    // (NodeBuilder::with_passive_inputs); wire value 0 passive, 1 active, 2 active + marked, 3 passive + marked
+    struct InSpec { std::size_t src; bool active; bool required; bool marked{false}; };
     struct Op { std::int64_t code, a, b; };
     struct NodeSpec
     {
@@ -120,6 +122,18 @@ namespace
                     auto bundle = root.as_bundle();
                     auto in     = bundle[(std::size_t)op.a];
                     if (op.code == 9) { in.make_passive(); } else { in.make_active(); }
+                    break;
+                }
+                case 11:
+                {
+                    // the producer invalidates its own output (public mutation API)
+                    if (!n.has_out || !started) { break; }
+                    bool did = false;
+                    {
+                        auto mutation = view.output(now).begin_mutation(now);
+                        did = mutation.invalidate();
+                    }
+                    ctx.out->line({16, (std::int64_t)i, us(now), did});
                     break;
                 }
                 default: break;
@@ -417,7 +431,8 @@ namespace
                 n.valid_mode     = (int)l[6];
                 for (std::int64_t s = 0; s < l[5]; ++s)
                 {
-                    n.ins.push_back({(std::size_t)l[7 + 3 * s], l[8 + 3 * s] != 0, l[9 + 3 * s] != 0});
+                    const std::int64_t a = l[8 + 3 * s];
+                    n.ins.push_back({(std::size_t)l[7 + 3 * s], a == 1 || a == 2, l[9 + 3 * s] != 0, a == 2 || a == 3});
                 }
                 ctx.nodes.push_back(std::move(n));
             }
@@ -436,8 +451,8 @@ namespace
                 n.kind    = 2;
                 n.fb_prod = (std::size_t)l[2];
                 n.fb_src  = (std::size_t)l[3];
-                n.ins.push_back({n.fb_prod, true, true});
-                n.ins.push_back({n.fb_src, false, false});
+                n.ins.push_back({n.fb_prod, true, true, false});
+                n.ins.push_back({n.fb_src, false, false, false});
                 ctx.nodes.push_back(std::move(n));
             }
             else if (l[0] == 3) { ctx.nodes.at(l[1]).scripts[l[2]].push_back({l[3], l[4], l[5]}); }
@@ -516,8 +531,21 @@ namespace
                 pc->out->line(l);
                 run_ops(*pc, i, v, t, true, k);
             };
-            if (endpoint) { gb.add_node(NodeBuilder::native(std::move(schema), std::move(cb), std::move(*endpoint))); }
-            else { gb.add_node(NodeBuilder::native(std::move(schema), std::move(cb))); }
+            std::vector<std::size_t> marked;
+            for (std::size_t s = 0; s < n.ins.size(); ++s) { if (n.ins[s].marked) { marked.push_back(s); } }
+            try
+            {
+                NodeBuilder nb = endpoint ? NodeBuilder::native(std::move(schema), std::move(cb), std::move(*endpoint))
+                                          : NodeBuilder::native(std::move(schema), std::move(cb));
+                if (!marked.empty()) { nb = nb.with_passive_inputs(marked); }
+                gb.add_node(std::move(nb));
+            }
+            catch (const std::invalid_argument &e)
+            {
+                out.line({18, 2});
+                std::fprintf(stderr, "build error: %s\n", e.what());
+                return;
+            }
         }
         for (std::size_t i = 0; i < ctx.nodes.size(); ++i)
         {
